@@ -1,4 +1,5 @@
 From GV Require Import Common.Outcome C12.HeaderModel C12.Spec C12.Proofs.
+From GV Require C10.YpSpec C10.YpTotal C11.Spec C11.Proofs C11.TotalProofs.
 
 Theorem C12_header_total : header_total_stmt.
 Proof. exact header_total. Qed.
@@ -47,3 +48,18 @@ Print Assumptions C12_re_digits_spec.
 Theorem C12_re_string_spec : re_string_stmt.
 Proof. exact re_string_spec. Qed.
 Print Assumptions C12_re_string_spec.
+
+(* totality of the yacc and lex specification parsers: the theorems proved about
+   the C10 (text -> AST) and C11 (lex spec) mirrors, re-exported here because C12
+   quantifies over all three parsers *)
+Theorem C12_yacc_parse_total : C10.YpSpec.yacc_parse_total_stmt.
+Proof. exact C10.YpTotal.yacc_parse_total. Qed.
+Print Assumptions C12_yacc_parse_total.
+
+Theorem C12_lex_parse_total : C11.Spec.lex_parse_total_stmt.
+Proof. exact C11.TotalProofs.lex_parse_total. Qed.
+Print Assumptions C12_lex_parse_total.
+
+Theorem C12_lex_errs_nonempty : C11.Spec.lex_errs_nonempty_stmt.
+Proof. exact C11.Proofs.lex_errs_nonempty. Qed.
+Print Assumptions C12_lex_errs_nonempty.
